@@ -99,7 +99,7 @@ def run(ctx, cfg):
             # an earlier analysis with the same option objects and another minimum-cycle count
             m_0 = ctx.integer('m_0')
             ctx.assume(m_0 >= 0)
-            fk = {'n_cycles': 4}
+            fk = {'n_cycles': 4, 'avg_type': 'mean', 'magnitude_type': 'power'}
             bk_arg = dict(burst_kwargs)
             bk_arg['filter_kwargs'] = fk
             first_bk = bk_arg
@@ -122,8 +122,8 @@ def run(ctx, cfg):
     if not ctx.prove(len(st.dual) == n_calls, 'the sample-wise detector is run exactly once per analysis'):
         return
     call = st.dual[-1]
-    if cfg.get('reuse'):
-        ctx.prove(call['kw'] == {'n_cycles': 4}, 'detector run with exactly the given filter options (got %r)' % (call['kw'],))
+    want_kw = {'n_cycles': 4, 'avg_type': 'mean', 'magnitude_type': 'power'} if cfg.get('reuse') else {}
+    ctx.prove(call['kw'] == want_kw, 'detector run with exactly the given filter / detector options (got %r)' % (call['kw'],))
     mask = call['out']
     want_amp = (0.5, 1.5) if cfg['amp'] else (1, 2)
     ctx.prove_all([
